@@ -10,6 +10,11 @@ package account
 // The registry: the table lookups Get/GetPath (locks, the multimap tree, strings.Split/Join) are
 // trusted to hand out valid accounts and to touch only the registry's index and tree - in particular
 // NOT the swaps cache. Everything built on top of them is verified against these two contracts.
+//@ func NewRegistry
+//@   trusted
+//@   modifies nothing
+//@   ensures result != nil && fresh(result) && result.index != nil && result.swaps != nil && fresh(result.index) && fresh(result.swaps)
+//
 //@ func (*Registry).Get
 //@   trusted
 //@   modifies as.index[*]
